@@ -134,6 +134,7 @@ func c08Body(env *simrt.Env) {
 
 	pass := func(part []int) ([]emtRec, *chanObs) {
 		w.sent, w.fed = 0, 0
+		w.blockFirst, w.blockStamp = nil, nil
 		before := len(w.sk.recs)
 		if err := w.startScripted(); err != nil {
 			simrt.Fail("harness.start", "harness:start", "Start failed: %v", err)
@@ -153,7 +154,7 @@ func c08Body(env *simrt.Env) {
 		w.drain()
 		w.stop()
 		w.drain()
-		o := &chanObs{epochs: []epoch{{ts: st.TriggerState, npre: npre, nsamp: nsamp}}}
+		o := &chanObs{epochs: []epoch{{ts: st.TriggerState, npre: npre, nsamp: nsamp}}, blockFirst: w.blockFirst, blockStamp: w.blockStamp}
 		var out []emtRec
 		for _, ro := range w.sk.recs[before:] {
 			r := ro.rec
